@@ -61,6 +61,14 @@ def fam_justify_attr_ids(q):
         lambda s, g: [a for a, v in g["glat"]["glyphs"][3]["attrs"] if v == 777] == [s["jAttrs"][0][0]], True
 
 
+def fam_lig_components_per_glyph(q):
+    """q ligature components on ONE glyph: the Silf header stores the largest number of components of a ligature in one
+    byte (maxCompPerLig)"""
+    comps = "; ".join("component.c%d = box(0, 0, %dm, 10m)" % (i, i + 1) for i in range(q))
+    return (HDR + "table(glyph) cL = glyphid(11) {%s}; cA = glyphid(3..6); cB = glyphid(7..10); endtable;\n"
+            "table(sub) cA > cB; endtable;\n" % comps), ["NOENGINE"], lambda s, g: s["maxCompPerLig"], q
+
+
 def fam_features(q):
     feats = "".join('f%d { id = %d; name.1033 = string("F%d"); settings { a%d { value = 0; name.1033 = string("x"); } } default = a%d; }\n' % (i, 100 + i, i, i, i) for i in range(q))
     return HDR + GT + "table(feature)\n" + feats + "endtable;\ntable(sub) cA > cB; endtable;\n", [], None, q
@@ -148,6 +156,7 @@ FAMILIES = [
     ("padded_rule_slots", fam_padded_slots, [42, 43, 44, 45, 60], 120),
     ("script_tags", fam_script_tags, [254, 255, 256, 257, 400], 120),
     ("justify_attr_ids_after_components", fam_justify_attr_ids, [40, 48, 49, 50, 52, 70], 120),
+    ("lig_components_per_glyph", fam_lig_components_per_glyph, [254, 255, 256, 300], 120),
     ("features", fam_features, [62, 63, 64, 65, 200], 120),
     ("user_attr_index", fam_userattr, [15, 16, 17, 64], 120),
     ("glyph_attrs", fam_gattrs, [250, 252, 253, 256, 300], 120),
